@@ -383,7 +383,7 @@ def all_runs(ctx, tag, n):
 
 
 def correspondence(ctx, res, n=None):
-    recs = [r for r in all_runs(ctx, "run", n or ctx.scale(24, 200)) if not r.get("skip") and (r.get("lean") or r.get("lean_n"))]
+    recs = [r for r in all_runs(ctx, "run", n or ctx.scale(20, 200)) if not r.get("skip") and (r.get("lean") or r.get("lean_n"))]
     lines, owner = [], []
     for r in recs:
         for key in ("lean", "lean_n"):
@@ -469,7 +469,7 @@ def judge(rec, res):
 
 
 def oracle(ctx, res, n=None):
-    recs = all_runs(ctx, "run", n or ctx.scale(24, 200))
+    recs = all_runs(ctx, "run", n or ctx.scale(20, 200))
     for r in recs:
         if r.get("skip"):
             res.count("skipped")
